@@ -195,6 +195,7 @@ func hang(id, part string, c any, rec *ev.Recorder, msg string) {
 	p := ev.WriteReplay(id, part, c, fmt.Errorf("%s", msg))
 	rec.Flush()
 	fmt.Printf("HANG %s/%s: %s [replay %s]\n", id, part, msg, p)
+	killChildren()
 	os.Exit(1)
 }
 
